@@ -187,7 +187,8 @@ OffDenotesM(p, W, vs, S, Md) ==
       d1 == DomEnd(W, vs)
       dS == d1 + Settle(p)
       n == dS - d0 + 1
-      R == SigC(p, CellsOf(W, vs, d0, dS), n, S, Md) IN
+      \* (SigOnDomain = SigC on the cells of the domain when the signals begin together: DenseOffMC!SigDIsSigC)
+      R == IF SameStart(W, vs) THEN SigC(p, CellsOf(W, vs, d0, dS), n, S, Md) ELSE SigOnDomain(p, W, vs, dS, S, Md) IN
   /\ ~r.err /\ r.out # <<>> /\ Monotone(r.out) /\ FirstT(r.out) = d0
   /\ \A t \in d0..d1 : StepAt(r.out, t) = R[t - d0 + 1]
 OffDenotes(p, W, vs, S) == OffDenotesM(p, W, vs, S, [sem |-> "standard", io |-> [v \in vs |-> "output"]])
